@@ -24,8 +24,9 @@ theorem utf8Len_le (s : Text) : s.length ≤ utf8Len s ∧ utf8Len s ≤ 4 * s.l
     simp only [utf8Len, List.length_cons]
     omega
 
-/-- **Sentence 1, first half.** With an output stream limit `l`, a completed render never returns more than `l`
-UTF-8 bytes — for every template, partial pool, render data and every value of the other four limits. -/
+/-- **Sentence 1, first half — in every error mode.** With an output stream limit `l`, a completed render never
+returns more than `l` UTF-8 bytes — for every template, partial pool, render data, every value of the other four
+limits, and in STRICT as well as LAX/WARN mode (where suppressed errors let the render go on). -/
 theorem output_le_limit (L : Limits) (P : Prog) (nodes : List Node) (l : Nat) (w : W)
     (hl : L.output = some l) (h : renderTemplate L P nodes = .ok w) : utf8Len w.buf.text ≤ l := by
   unfold renderTemplate at h
@@ -33,18 +34,36 @@ theorem output_le_limit (L : Limits) (P : Prog) (nodes : List Node) (l : Nat) (w
   obtain ⟨_, h⟩ := h
   split at h
   · cases h
-  · have := ((binv_all L P).2.2.2.1 _ _ _ _ _ h).2
-    rw [hl] at this
-    have hb := this (by simp [BInv, utf8Len])
-    simp only [BInv] at hb
-    omega
+  · rw [hl] at h
+    exact renderTop_within_limit L P _ l w nodes h
+
+/-- In STRICT mode the count is exact as well: the returned text has `size = utf8Len text` bytes. -/
+theorem output_size_exact (L : Limits) (P : Prog) (hlax : P.lax = false) (nodes : List Node) (w : W)
+    (h : renderTemplate L P nodes = .ok w) : w.buf.size = utf8Len w.buf.text := by
+  unfold renderTemplate at h
+  simp only [guardE_ok] at h
+  obtain ⟨_, h⟩ := h
+  split at h
+  · cases h
+  · have := ((binv_all L P hlax).2.2.2.1 _ _ _ _ _ h).2
+    have hb := this (by cases L.output <;> simp [BInv, initW, utf8Len])
+    cases ho : L.output <;> rw [ho] at hb <;> simp only [BInv] at hb
+    · exact hb
+    · exact hb.1
 
 /-- The same bound for *every* buffer the render creates (the top-level one, and the sub-buffers of `capture` and
 `ifchanged`, which `get_buffer` starts from the remaining budget): whatever a node does to the current buffer keeps
 `size = utf8Len text ≤ limit`, and a `NullIO` is never written to. -/
-theorem every_buffer_within_its_limit (L : Limits) (P : Prog) (c : Cx) (bk : BK) (w w' : W) (n : Node)
-    (h : render L P c bk w n = .ok w') : (bk = .null → w'.buf = w.buf) ∧ (BInv bk w.buf → BInv bk w'.buf) :=
-  (binv_all L P).1 c bk w n w' h
+theorem every_buffer_within_its_limit (L : Limits) (P : Prog) (hlax : P.lax = false) (c : Cx) (bk : BK) (w w' : W)
+    (n : Node) (h : render L P c bk w n = .ok w') : (bk = .null → w'.buf = w.buf) ∧ (BInv bk w.buf → BInv bk w'.buf) :=
+  (binv_all L P hlax).1 c bk w n w' h
+
+/-- the same in every mode, for either outcome of the node (completed, or failed and possibly suppressed): the text
+held by the current buffer stays within the buffer's limit -/
+theorem every_buffer_within_its_limit_any_mode (L : Limits) (P : Prog) (c : Cx) (bk : BK) (w : W) (n : Node) :
+    (bk = .null → (resW (render L P c bk w n)).buf = w.buf) ∧
+      (LInv bk w.buf → LInv bk (resW (render L P c bk w n)).buf) :=
+  (lax_all L P).1 c bk w n
 
 /-- a fresh sub-buffer satisfies the invariant and its limit is never more than the configured limit -/
 theorem sub_buffer_budget (L : Limits) (bk : BK) (b : Buf) (l : Nat) (hl : L.output = some l) :
@@ -54,41 +73,65 @@ theorem sub_buffer_budget (L : Limits) (bk : BK) (b : Buf) (l : Nat) (hl : L.out
   rw [hl]
   exact ⟨_, rfl, Nat.sub_le _ _⟩
 
+/-- **At the boundary.** A nested buffer created when the enclosing limited buffer has used the whole allowance
+(`size = l`, or more after a failed write in LAX mode) is a `LimitedStringIO` with limit 0 — not an unlimited
+`StringIO` — and every non-empty write to it fails. -/
+theorem sub_buffer_at_exhausted_budget (L : Limits) (l lb : Nat) (b : Buf) (hl : L.output = some l) (hb : l ≤ b.size) :
+    subKind L (.real (some lb)) b = .real (some 0) ∧
+      ∀ s : Text, s ≠ [] → write (subKind L (.real (some lb)) b) ⟨0, []⟩ s = .error ⟨utf8Len s, []⟩ := by
+  have hk : subKind L (.real (some lb)) b = .real (some 0) := by
+    unfold subKind; rw [hl]; simp only; congr 2; omega
+  refine ⟨hk, fun s hs => ?_⟩
+  rw [hk]
+  have : 0 < utf8Len s := by
+    cases s with
+    | nil => exact absurd rfl hs
+    | cons c cs => have := cpLen_pos c; simp only [utf8Len]; omega
+  simp only [write, hs, if_false, Nat.zero_add]
+  rw [if_pos (by omega)]
+
+/-- with an output limit configured, no buffer of the render is ever unlimited: `get_buffer` always returns a
+`LimitedStringIO`, whatever the enclosing buffer is -/
+theorem sub_buffer_always_limited (L : Limits) (l : Nat) (hl : L.output = some l) (bk : BK) (b : Buf) :
+    ∃ l', subKind L bk b = .real (some l') := by
+  unfold subKind; rw [hl]; exact ⟨_, rfl⟩
+
 /-- **Sentence 1, second half.** If the render without output limit (all other limits unchanged) completes with
 more than `l` bytes, the strict-mode render with `output_stream_limit = l` raises `OutputStreamLimitError` — it can
 neither complete nor fail in any other way. -/
-theorem strict_over_limit_raises (L : Limits) (P : Prog) (nodes : List Node) (l : Nat) (w0 : W)
+theorem strict_over_limit_raises (L : Limits) (P : Prog) (hlax : P.lax = false) (nodes : List Node) (l : Nat) (w0 : W)
     (hl : L.output = some l) (h0 : renderTemplate { L with output := none } P nodes = .ok w0)
-    (hover : utf8Len w0.buf.text > l) : renderTemplate L P nodes = .error .outputLimit := by
+    (hover : utf8Len w0.buf.text > l) : ∃ w, renderTemplate L P nodes = .error (.outputLimit, w) := by
   have hle : LimLe L { L with output := none } :=
     ⟨by simp [OLe], OLe.refl _, OLe.refl _, Nat.le_refl _, Nat.le_refl _⟩
-  rcases agree_template hle P nodes with heq | ⟨e, he, ht⟩
+  rcases agree_template hle P hlax nodes with heq | ⟨e, w, he, ht⟩
   · rw [h0] at heq
     have := output_le_limit L P nodes l w0 hl heq
     omega
-  · rw [he]
+  · refine ⟨w, ?_⟩
+    rw [he]
     cases e <;> simp_all [Tight]
 
 /-- **Sentence 2** (for every limit the code treats as a limit, i.e. `M ≠ 0`). With `local_namespace_limit = M`,
 every size measured after an assignment during a completed render — in the top-level context and in every copied
 context (`render`), where the measure includes the size carried in from the parent chain — is at most `M`. -/
-theorem locals_le_limit_partial (L : Limits) (P : Prog) (nodes : List Node) (M : Nat) (w : W)
+theorem locals_le_limit_partial (L : Limits) (P : Prog) (hlax : P.lax = false) (nodes : List Node) (M : Nat) (w : W)
     (hl : L.ns = some M) (hM : M ≠ 0) (h : renderTemplate L P nodes = .ok w) : ∀ s ∈ w.log, s ≤ M := by
   unfold renderTemplate at h
   simp only [guardE_ok] at h
   obtain ⟨_, h⟩ := h
   split at h
   · cases h
-  · have := (ns_all L P M hl hM).2.2.2.1 _ _ _ _ _ h
-    exact (this ⟨by simp [sumSz], by simp⟩).2
+  · have := (ns_all L P hlax M hl hM).2.2.2.1 _ _ _ _ _ h
+    exact (this ⟨by simp [sumSz, initW], by simp [initW]⟩).2
 
 /-- The invariant behind it, for every reachable context: if the measured size of a context
 (`Σ sz locals + local_namespace_size_carry`) is within `M` before a node, it is within `M` after it, and every
 context created by `copy` starts within `M` (its carry *is* the parent's measured size). -/
-theorem locals_le_limit_every_context (L : Limits) (P : Prog) (M : Nat) (hl : L.ns = some M) (hM : M ≠ 0)
+theorem locals_le_limit_every_context (L : Limits) (P : Prog) (hlax : P.lax = false) (M : Nat) (hl : L.ns = some M) (hM : M ≠ 0)
     (c : Cx) (bk : BK) (w w' : W) (n : Node) (h : render L P c bk w n = .ok w')
     (hi : sizeOfLocals P c w ≤ M ∧ ∀ s ∈ w.log, s ≤ M) : sizeOfLocals P c w' ≤ M ∧ ∀ s ∈ w'.log, s ≤ M :=
-  (ns_all L P M hl hM).1 c bk w n w' h hi
+  (ns_all L P hlax M hl hM).1 c bk w n w' h hi
 
 theorem copied_context_starts_within (P : Prog) (c : Cx) (w : W) (ns : List (String × Val)) :
     sizeOfLocals P (copied P c w ns) (freshW w) = sizeOfLocals P c w := by
@@ -97,15 +140,44 @@ theorem copied_context_starts_within (P : Prog) (c : Cx) (w : W) (ns : List (Str
 /-- **Sentence 2 at full strength fails for `M = 0`**: `assign` tests `if limit and size > limit`, so a limit of 0 is
 no limit; `{% assign a = 'x' %}` completes under `local_namespace_limit = 0` having held 42 bytes. -/
 theorem locals_le_limit_counterexample :
-    ¬ (∀ (L : Limits) (P : Prog) (nodes : List Node) (M : Nat) (w : W), L.ns = some M →
+    ¬ (∀ (L : Limits) (P : Prog) (nodes : List Node) (M : Nat) (w : W), P.lax = false → L.ns = some M →
         renderTemplate L P nodes = .ok w → ∀ s ∈ w.log, s ≤ M) := by
   intro hall
-  have := hall ⟨none, some 0, none, 30, 30⟩ ⟨[], [], pySizeof⟩ [.assign "a" (.lit (.sc (.str [120])))] 0
-    ⟨[("a", .sc (.str [120]))], [], [], ⟨0, []⟩, [42]⟩ rfl
-    (by simp [renderTemplate, renderList, render, guardE, bindR, assignW, nsOver, eval, setA, sizeOfLocals, sumSz,
-          pySizeof, strSize, maxCp, nestList, nestNode])
+  have := hall ⟨none, some 0, none, 30, 30⟩ ⟨[], [], pySizeof, pyFilt, false⟩ [.assign "a" (.lit (.sc (.str [120])))] 0
+    ⟨[("a", .sc (.str [120]))], [], [], ⟨0, []⟩, [42], []⟩ rfl rfl
+    (by simp [renderTemplate, renderTop, catchR, initW, render, guardE, bindR, assignW, nsOver, eval, setA, sizeOfLocals,
+          sumSz, pySizeof, strSize, maxCp, nestList, nestNode])
     42 (by simp)
   omega
+
+/-! ## LAX / WARN mode: what holds and what does not
+
+`output_le_limit` and `every_buffer_within_its_limit_any_mode` above hold in every mode. Sentence 2 does not survive
+error suppression: `assign` stores the value *before* it tests the limit, so after a suppressed
+`LocalNamespaceLimitError` the context keeps holding more than `M`. -/
+
+/-- in LAX/WARN mode a render whose template parses and whose top-level `extend` fits always completes: every node's
+error is dropped by the render loop -/
+theorem lax_completes (L : Limits) (P : Prog) (hlax : P.lax = true) (nodes : List Node)
+    (hn : nestList nodes ≤ L.nesting) (hd : 4 ≤ L.depth) : ∃ w, renderTemplate L P nodes = .ok w := by
+  unfold renderTemplate
+  have h1 : decide (nestList nodes > L.nesting) = false := by simp; omega
+  simp only [h1, guardE]
+  have h2 : ¬ (4 > L.depth) := by omega
+  simp only [h2, if_false]
+  exact renderTop_lax_ok L P hlax _ _ _ _
+
+/-- **Sentence 2 fails in LAX mode**: under `local_namespace_limit = 1`, `{% assign a = 'x' %}` completes (the error is
+suppressed) and the context still holds the 42-byte value. -/
+theorem lax_locals_exceed_limit_counterexample :
+    ¬ (∀ (L : Limits) (P : Prog) (nodes : List Node) (M : Nat) (w : W), L.ns = some M → M ≠ 0 →
+        renderTemplate L P nodes = .ok w → sumSz P.sz w.locals ≤ M) := by
+  intro hall
+  have := hall ⟨none, some 1, none, 30, 30⟩ ⟨[], [], pySizeof, pyFilt, true⟩ [.assign "a" (.lit (.sc (.str [120])))] 1
+    ⟨[("a", .sc (.str [120]))], [], [], ⟨0, []⟩, [], []⟩ rfl (by omega)
+    (by simp [renderTemplate, renderTop, catchR, initW, render, guardE, bindR, assignW, nsOver, eval, setA, sizeOfLocals,
+          sumSz, pySizeof, strSize, maxCp, nestList, nestNode])
+  simp [sumSz, pySizeof, strSize, maxCp] at this
 
 /-! ## The ghost-exact fields are not read when their limit is off
 
@@ -129,16 +201,16 @@ theorem buf_size_unread_when_off (L : Limits) (hl : L.output = none) (bk : BK) (
 /-! ## Non-vacuity -/
 
 /-- `{% capture c %}€{% endcapture %}{{ c }}` produces 3 bytes; under limit 3 it completes … -/
-example : outcome (renderTemplate ⟨some 3, none, none, 30, 30⟩ ⟨[], [], pySizeof⟩
+example : outcome (renderTemplate ⟨some 3, none, none, 30, 30⟩ ⟨[], [], pySizeof, pyFilt, false⟩
     [.capture "c" [.text [0x20AC]], .output (.var "c")]) = .ok [0x20AC] := by
-  simp [outcome, renderTemplate, renderList, render, renderBlock, guardE, bindR, assignW, nsOver, eval, evalVar, lookupPushed,
+  simp [outcome, renderTemplate, renderTop, catchR, initW, mapErr, renderList, render, renderBlock, guardE, bindR, assignW, nsOver, eval, evalVar, lookupPushed,
     lookupA, setA, sizeOfLocals, sumSz, nestList, nestNode, blankList, blankNode, blankText, isSpaceCp, subKind, writeW,
     write, utf8Len, cpLen, toStr]
 
 /-- … under limit 2 it raises (the hypothesis of `strict_over_limit_raises` is met) -/
-example : outcome (renderTemplate ⟨some 2, none, none, 30, 30⟩ ⟨[], [], pySizeof⟩
+example : outcome (renderTemplate ⟨some 2, none, none, 30, 30⟩ ⟨[], [], pySizeof, pyFilt, false⟩
     [.capture "c" [.text [0x20AC]], .output (.var "c")]) = .error .outputLimit := by
-  simp [outcome, renderTemplate, renderList, render, renderBlock, guardE, bindR, assignW, nsOver, eval, evalVar, lookupPushed,
+  simp [outcome, renderTemplate, renderTop, catchR, initW, mapErr, renderList, render, renderBlock, guardE, bindR, assignW, nsOver, eval, evalVar, lookupPushed,
     lookupA, setA, sizeOfLocals, sumSz, nestList, nestNode, blankList, blankNode, blankText, isSpaceCp, subKind, writeW,
     write, utf8Len, cpLen, toStr]
 
